@@ -27,6 +27,13 @@ def obligations(tier):
                    symbolic="type ids over all of int32 (in and out of range), counts 1..65535, module id 1..199, pid int32, probe index"),
         Obligation("counters_increment_exact", P, "h_count", [{}], cond_timeout=120, reach="h_count_reach", encoded=PENC,
                    bounds="one forwarded message", symbolic="msg_type int32, inside/outside a statistics send"),
+        Obligation("interval_boundaries_in_the_run_loop", P, "h_boundary",
+                   [{"due": d, "listen": l, "K": k} for d in ([0, 1], [1, 0], [1, 1], [0, 0]) for l in ("none", "traffic", "timing", "all")
+                    for k in ((1, 2) if tier == "quick" else (0, 1, 2))],
+                   cond_timeout=200, path_timeout=60, reach="h_boundary_reach", reach_shards=[{"due": [1, 1], "listen": "all", "K": 2}],
+                   encoded=PENC + ["pyrtma.manager:MessageManager.run"],
+                   bounds="one idle round of the real run() loop under a controlled clock: timing / traffic interval ended or not, nobody / a MESSAGE_TRAFFIC / a TIMING_MESSAGE / an ALL subscriber listening, 0-2 types counted",
+                   symbolic="the counted type ids (int32) and counts 1..65535"),
     ]
     return obs
 
